@@ -48,21 +48,37 @@ class TargetModel:
                 args.append(m.sym_value(leaf(n), body["locals"][i]["ty"]))
         return args
 
-    def variants(self, path, overrides=None, tag=None, argmap=None, **mopts):
+    def variants(self, path, overrides=None, tag=None, argmap=None, gmap=None, **mopts):
         key = (path, tag)
         if key in self._variants:
             return self._variants[key]
         body = self.facts.body(path)
         if body is None:
             raise Unsupported("no body " + path)
+        if "summaries" not in mopts and not mopts.get("havoc_loops"):
+            # the placement search is a unit of its own for every rule that follows an installation: it is summarised in the roots even
+            # when a refactoring left no loop in it (the loop sits in a generic helper it calls)
+            forced = self.allocator_summaries() - {path}
+            if forced:
+                mopts = dict(mopts, summaries=forced)
         m = Machine(self.facts, **mopts)
         args = self.root_args(m, body, overrides)
         if argmap is not None:
             args = [argmap(a) for a in args]
-        res = m.run_fn(path, args)
+        res = m.run_fn(path, args, gmap)
         self._variants[key] = res
         self.machines[key] = m
         return res
+
+    def allocator_summaries(self):
+        if not hasattr(self, "_alloc_summ"):
+            self._alloc_summ = set()
+            try:
+                from .rules.codewrite import allocator_fns
+                self._alloc_summ = {p for p in allocator_fns(self) if "::{closure#" not in p}
+            except Exception:
+                self._alloc_summ = set()
+        return self._alloc_summ
 
     def variants_for_decode(self, path):
         """Variants of an install root for the rules that decode the written bytes. If-conversion may have folded a case split
